@@ -21,6 +21,9 @@ func init() {
 	register(&Rule{ID: "C16.4", Prop: "C16", Min: 4,
 		Text: "the auth verdict is what the accept hook returns: authCheckerPlugin.PostAccept returns nil only when no checker is configured, otherwise the checker's status, or the PreSend failure on its non-OK edge; authBearerPlugin.PostDial returns the bearer function's status",
 		Run:  runC16_4})
+	register(&Rule{ID: "C16.6", Prop: "C16", Min: 5,
+		Text: "a rejected connection is closed and not listed: on the non-OK edge of the accept/dial hooks every path removes the session from the index (C07.11), and closeLocked deletes the index entry for every state it closes from - including Preparing, since a hook may have indexed the session through SetID",
+		Run:  func(c *Ctx) { runC07_11(c); checkCloseLockedDeletes(c) }})
 	register(&Rule{ID: "C16.5", Prop: "C16", Min: 2,
 		Text: "the exchange happens once per connection: the RecvOnce/SendOnce closures start with a CAS on a flag allocated per hook invocation; the failure edge returns the misuse status and all I/O is on the success edge",
 		Run:  runC16_5})
